@@ -15,18 +15,104 @@ package util
 //@   nopanic
 //@   ensures result == (inst(left) <= inst(right))
 
-// scope predicates used by the framework (C04); functional contracts below.
+// ---------------------------------------------------------------------------
+// scope predicates used by the framework (C04): "server-auth / email-protection /
+// code-signing indication" as the property states them.
+
+//@ spec brPolicy(p asn1.ObjectIdentifier) bool =
+//@      oidEq(p, BRDomainValidatedOID) || oidEq(p, BROrganizationValidatedOID) ||
+//@      oidEq(p, BRIndividualValidatedOID) || oidEq(p, BRExtendedValidatedOID)
 
 //@ func IsServerAuthCert [C04]
 //@   pure
 //@   requires cert != nil
 //@   nopanic
+//@   loop 1 invariant forall(j, 0, k, cert.ExtKeyUsage[j] != x509.ExtKeyUsageAny && cert.ExtKeyUsage[j] != x509.ExtKeyUsageServerAuth)
+//@   loop 2 invariant forall(j, 0, k, !brPolicy(cert.PolicyIdentifiers[j]))
+//@   loop 2 invariant forall(j, 0, len(cert.ExtKeyUsage), cert.ExtKeyUsage[j] != x509.ExtKeyUsageAny && cert.ExtKeyUsage[j] != x509.ExtKeyUsageServerAuth)
+//@   ensures result == ((len(cert.ExtKeyUsage) == 0 && len(cert.UnknownExtKeyUsage) == 0) ||
+//@                      exists(j, 0, len(cert.ExtKeyUsage), cert.ExtKeyUsage[j] == x509.ExtKeyUsageAny || cert.ExtKeyUsage[j] == x509.ExtKeyUsageServerAuth) ||
+//@                      exists(j, 0, len(cert.PolicyIdentifiers), brPolicy(cert.PolicyIdentifiers[j])))
+
+//@ func HasEmailSAN [C04]
+//@   pure
+//@   requires c != nil
+//@   nopanic
+//@   loop 1 invariant forall(j, 0, k, c.EmailAddresses[j] == "")
+//@   loop 2 invariant forall(j, 0, k, !(oidEq(c.OtherNames[j].TypeID, OidIdOnSmtpUtf8Mailbox) && len(c.OtherNames[j].Value.Bytes) != 0))
+//@   loop 2 invariant forall(j, 0, len(c.EmailAddresses), c.EmailAddresses[j] == "")
+//@   ensures result == (exists(j, 0, len(c.EmailAddresses), c.EmailAddresses[j] != "") ||
+//@                      exists(j, 0, len(c.OtherNames), oidEq(c.OtherNames[j].TypeID, OidIdOnSmtpUtf8Mailbox) && len(c.OtherNames[j].Value.Bytes) != 0))
+
+//@ spec emailEKU(c *x509.Certificate) bool =
+//@      (len(c.ExtKeyUsage) == 0 && len(c.UnknownExtKeyUsage) == 0) ||
+//@      exists(j, 0, len(c.ExtKeyUsage), c.ExtKeyUsage[j] == x509.ExtKeyUsageAny || c.ExtKeyUsage[j] == x509.ExtKeyUsageEmailProtection)
 
 //@ func IsEmailProtectionCert [C04]
 //@   pure
 //@   requires cert != nil
 //@   nopanic
+//@   loop 1 invariant forall(j, 0, k, cert.ExtKeyUsage[j] != x509.ExtKeyUsageAny && cert.ExtKeyUsage[j] != x509.ExtKeyUsageEmailProtection)
+//@   loop 1 invariant HasEmailSAN(cert) && !(len(cert.ExtKeyUsage) == 0 && len(cert.UnknownExtKeyUsage) == 0)
+//@   ensures result == ((HasEmailSAN(cert) && emailEKU(cert)) || IsSMIMEBRCertificate(cert))
+
+//@ func IsSMIMEBRCertificate [C04]
+//@   pure
+//@   requires c != nil
+//@   nopanic
+//@   ensures result == (IsLegacySMIMECertificate(c) || IsMultipurposeSMIMECertificate(c) || IsStrictSMIMECertificate(c))
 
 //@ func IsCodeSigning [C04]
 //@   pure
 //@   nopanic
+//@   loop 1 invariant forall(j, 0, k, oidStr(policies[j]) != "2.23.140.1.3" && oidStr(policies[j]) != "2.23.140.1.4.1")
+//@   ensures result == exists(j, 0, len(policies), oidStr(policies[j]) == "2.23.140.1.3" || oidStr(policies[j]) == "2.23.140.1.4.1")
+
+//@ func IsIndividualValidatedCertificate [C04]
+//@   pure
+//@   requires c != nil
+//@   nopanic
+//@   loop 1 invariant forall(j, 0, k, !(oidEq(c.PolicyIdentifiers[j], SMIMEBRIndividualValidatedLegacyOID) || oidEq(c.PolicyIdentifiers[j], SMIMEBRIndividualValidatedMultipurposeOID) || oidEq(c.PolicyIdentifiers[j], SMIMEBRIndividualValidatedStrictOID)))
+//@   ensures result == exists(j, 0, len(c.PolicyIdentifiers), oidEq(c.PolicyIdentifiers[j], SMIMEBRIndividualValidatedLegacyOID) || oidEq(c.PolicyIdentifiers[j], SMIMEBRIndividualValidatedMultipurposeOID) || oidEq(c.PolicyIdentifiers[j], SMIMEBRIndividualValidatedStrictOID))
+
+//@ func IsMailboxValidatedCertificate [C04]
+//@   pure
+//@   requires c != nil
+//@   nopanic
+//@   loop 1 invariant forall(j, 0, k, !(oidEq(c.PolicyIdentifiers[j], SMIMEBRMailboxValidatedLegacyOID) || oidEq(c.PolicyIdentifiers[j], SMIMEBRMailboxValidatedMultipurposeOID) || oidEq(c.PolicyIdentifiers[j], SMIMEBRMailboxValidatedStrictOID)))
+//@   ensures result == exists(j, 0, len(c.PolicyIdentifiers), oidEq(c.PolicyIdentifiers[j], SMIMEBRMailboxValidatedLegacyOID) || oidEq(c.PolicyIdentifiers[j], SMIMEBRMailboxValidatedMultipurposeOID) || oidEq(c.PolicyIdentifiers[j], SMIMEBRMailboxValidatedStrictOID))
+
+//@ func IsOrganizationValidatedCertificate [C04]
+//@   pure
+//@   requires c != nil
+//@   nopanic
+//@   loop 1 invariant forall(j, 0, k, !(oidEq(c.PolicyIdentifiers[j], SMIMEBROrganizationValidatedLegacyOID) || oidEq(c.PolicyIdentifiers[j], SMIMEBROrganizationValidatedMultipurposeOID) || oidEq(c.PolicyIdentifiers[j], SMIMEBROrganizationValidatedStrictOID)))
+//@   ensures result == exists(j, 0, len(c.PolicyIdentifiers), oidEq(c.PolicyIdentifiers[j], SMIMEBROrganizationValidatedLegacyOID) || oidEq(c.PolicyIdentifiers[j], SMIMEBROrganizationValidatedMultipurposeOID) || oidEq(c.PolicyIdentifiers[j], SMIMEBROrganizationValidatedStrictOID))
+
+//@ func IsSponsorValidatedCertificate [C04]
+//@   pure
+//@   requires c != nil
+//@   nopanic
+//@   loop 1 invariant forall(j, 0, k, !(oidEq(c.PolicyIdentifiers[j], SMIMEBRSponsorValidatedLegacyOID) || oidEq(c.PolicyIdentifiers[j], SMIMEBRSponsorValidatedMultipurposeOID) || oidEq(c.PolicyIdentifiers[j], SMIMEBRSponsorValidatedStrictOID)))
+//@   ensures result == exists(j, 0, len(c.PolicyIdentifiers), oidEq(c.PolicyIdentifiers[j], SMIMEBRSponsorValidatedLegacyOID) || oidEq(c.PolicyIdentifiers[j], SMIMEBRSponsorValidatedMultipurposeOID) || oidEq(c.PolicyIdentifiers[j], SMIMEBRSponsorValidatedStrictOID))
+
+//@ func IsLegacySMIMECertificate [C04]
+//@   pure
+//@   requires c != nil
+//@   nopanic
+//@   loop 1 invariant forall(j, 0, k, !(oidEq(c.PolicyIdentifiers[j], SMIMEBRMailboxValidatedLegacyOID) || oidEq(c.PolicyIdentifiers[j], SMIMEBROrganizationValidatedLegacyOID) || oidEq(c.PolicyIdentifiers[j], SMIMEBRSponsorValidatedLegacyOID) || oidEq(c.PolicyIdentifiers[j], SMIMEBRIndividualValidatedLegacyOID)))
+//@   ensures result == exists(j, 0, len(c.PolicyIdentifiers), oidEq(c.PolicyIdentifiers[j], SMIMEBRMailboxValidatedLegacyOID) || oidEq(c.PolicyIdentifiers[j], SMIMEBROrganizationValidatedLegacyOID) || oidEq(c.PolicyIdentifiers[j], SMIMEBRSponsorValidatedLegacyOID) || oidEq(c.PolicyIdentifiers[j], SMIMEBRIndividualValidatedLegacyOID))
+
+//@ func IsMultipurposeSMIMECertificate [C04]
+//@   pure
+//@   requires c != nil
+//@   nopanic
+//@   loop 1 invariant forall(j, 0, k, !(oidEq(c.PolicyIdentifiers[j], SMIMEBRMailboxValidatedMultipurposeOID) || oidEq(c.PolicyIdentifiers[j], SMIMEBROrganizationValidatedMultipurposeOID) || oidEq(c.PolicyIdentifiers[j], SMIMEBRSponsorValidatedMultipurposeOID) || oidEq(c.PolicyIdentifiers[j], SMIMEBRIndividualValidatedMultipurposeOID)))
+//@   ensures result == exists(j, 0, len(c.PolicyIdentifiers), oidEq(c.PolicyIdentifiers[j], SMIMEBRMailboxValidatedMultipurposeOID) || oidEq(c.PolicyIdentifiers[j], SMIMEBROrganizationValidatedMultipurposeOID) || oidEq(c.PolicyIdentifiers[j], SMIMEBRSponsorValidatedMultipurposeOID) || oidEq(c.PolicyIdentifiers[j], SMIMEBRIndividualValidatedMultipurposeOID))
+
+//@ func IsStrictSMIMECertificate [C04]
+//@   pure
+//@   requires c != nil
+//@   nopanic
+//@   loop 1 invariant forall(j, 0, k, !(oidEq(c.PolicyIdentifiers[j], SMIMEBRMailboxValidatedStrictOID) || oidEq(c.PolicyIdentifiers[j], SMIMEBROrganizationValidatedStrictOID) || oidEq(c.PolicyIdentifiers[j], SMIMEBRSponsorValidatedStrictOID) || oidEq(c.PolicyIdentifiers[j], SMIMEBRIndividualValidatedStrictOID)))
+//@   ensures result == exists(j, 0, len(c.PolicyIdentifiers), oidEq(c.PolicyIdentifiers[j], SMIMEBRMailboxValidatedStrictOID) || oidEq(c.PolicyIdentifiers[j], SMIMEBROrganizationValidatedStrictOID) || oidEq(c.PolicyIdentifiers[j], SMIMEBRSponsorValidatedStrictOID) || oidEq(c.PolicyIdentifiers[j], SMIMEBRIndividualValidatedStrictOID))
